@@ -1,6 +1,7 @@
 package props
 
 import (
+	"encoding/json"
 	"fmt"
 	"math"
 	"math/rand"
@@ -148,6 +149,33 @@ func runC18(w *mon.W) {
 					}
 				}
 				w.Add("pairs_with_genome_sized_counts", 1)
+			}
+			if k%8 == 3 || k%8 == 5 {
+				// tables that are related: the second is the first again, the first with every count multiplied (the
+				// same organism counted over more genes, AddCodonTable(t, t)), or a table in which every codon has one and
+				// the same count (a fresh default table, a sequence using every codon equally often); either may come first
+				b, _ := json.Marshal(t1)
+				t2 = codon.ParseCodonJSON(b)
+				m := []int{1, 2, 3, 10, 1000}[r.Intn(5)]
+				flat := k%8 == 5
+				for ai := range t2.AminoAcids {
+					for ci := range t2.AminoAcids[ai].Codons {
+						if flat {
+							t2.AminoAcids[ai].Codons[ci].Weight = m
+						} else {
+							t2.AminoAcids[ai].Codons[ci].Weight *= m
+						}
+					}
+				}
+				if r.Intn(2) == 0 {
+					t1, t2 = t2, t1
+				}
+				s1, s2 = snapshot(t1), snapshot(t2)
+				if flat {
+					w.Add("pairs_with_a_flat_table", 1)
+				} else {
+					w.Add("pairs_of_proportional_tables", 1)
+				}
 			}
 			rep := map[string]any{"table": tid, "first": s1.AA, "second": s2.AA}
 			w.Begin(id, fmt.Sprintf("table %d first=%v second=%v", tid, s1.AA, s2.AA))
